@@ -74,6 +74,7 @@ type Run struct {
 	Rule        string
 	Assumptions []string
 	MinDistinct int
+	Phase       string // "" for the main phase; e.g. "race" for a second phase merged into the evidence
 
 	start time.Time
 	mu    sync.Mutex
@@ -246,6 +247,37 @@ func (r *Run) Finish() int {
 		cov["samples"] = []interface{}{}
 	}
 
+	// race detector reports of this process (the driver sets VERIF_RACE_LOG together with GORACE log_path)
+	if prefix := os.Getenv("VERIF_RACE_LOG"); prefix != "" {
+		reports := CollectRaceReports(prefix, r.Prop)
+		attributed := 0
+		for _, rep := range reports {
+			if !rep.Attributed {
+				continue
+			}
+			attributed++
+			sig := "data-race/" + rep.Key
+			known := false
+			for _, k := range r.kf.Open {
+				if k.Property == r.Prop && k.Signature == sig {
+					known = true
+				}
+			}
+			if known {
+				r.kfHits[sig] += rep.Count
+				continue
+			}
+			r.vioCount[sig] += rep.Count
+			if _, ok := r.violations[sig]; !ok {
+				r.violations[sig] = &Violation{Clause: "no-data-race-on-anchored-state", Signature: sig,
+					Detail:  fmt.Sprintf("race detector: %v  <->  %v", rep.Access1, rep.Access2),
+					Witness: map[string]interface{}{"kind": "race-report", "report": rep}}
+			}
+		}
+		cov["race_detector"] = map[string]interface{}{"enabled": true, "distinct_reports": len(reports),
+			"attributed_to_this_property": attributed, "reports": reports}
+	}
+
 	var sigs []string
 	for s := range r.violations {
 		sigs = append(sigs, s)
@@ -275,8 +307,26 @@ func (r *Run) Finish() int {
 	if r.Assumptions == nil {
 		ev["assumptions"] = []string{}
 	}
-	b, _ := json.MarshalIndent(ev, "", " ")
 	evPath := filepath.Join(dir, "evidence", r.Prop+".json")
+	if r.Phase != "" {
+		// second phase of a two-phase check: merge into the evidence written by the main phase
+		if prev, err := os.ReadFile(evPath); err == nil {
+			var pe map[string]interface{}
+			if json.Unmarshal(prev, &pe) == nil {
+				if pc, ok := pe["coverage"].(map[string]interface{}); ok {
+					pc[r.Phase+"_phase"] = cov
+					if v, ok := pe["violations"].(float64); ok {
+						pe["violations"] = int(v) + len(r.violations)
+					}
+					if w, ok := pe["wall_s"].(float64); ok {
+						pe["wall_s"] = w + time.Since(r.start).Seconds()
+					}
+					ev = pe
+				}
+			}
+		}
+	}
+	b, _ := json.MarshalIndent(ev, "", " ")
 	if err := os.WriteFile(evPath, append(b, '\n'), 0o644); err != nil {
 		fmt.Fprintf(os.Stderr, "cannot write evidence: %v\n", err)
 		return 2
